@@ -351,6 +351,7 @@ class Env:
         self.buffer_type = _buffer(GZ_FORMATS.get(fmt, fmt))
         self.paths = {}
         self.nwrite = 0
+        self.hist_cache = {}   # own history of a retained table -> divergences of its full observation
 
     def path(self, which):
         if which not in self.paths:
@@ -466,6 +467,12 @@ def apply_op(env, op, regs, arg, tag):
         return None
     if kind == "swap":
         regs[0], regs[1] = u, t
+        return None
+    if kind == "keep":       # retain a reference to the current table (registers 2.. are the retained tables)
+        regs.append(t)
+        return None
+    if kind == "swapk":      # go on with the table retained last; the current one becomes the retained one
+        regs[0], regs[-1] = regs[-1], regs[0]
         return None
     if kind in ("replace", "set"):
         f = op[1]
